@@ -558,7 +558,13 @@ pub fn install_crash_handler() {
     #[cfg(not(miri))]
     unsafe {
         for s in [libc::SIGABRT, libc::SIGSEGV, libc::SIGBUS, libc::SIGILL, libc::SIGFPE] {
-            libc::signal(s, crash_handler as usize);
+            // SA_ONSTACK: a stack overflow (SIGSEGV on the guard page) can only be reported from the alternate signal stack
+            // the Rust runtime gives every thread
+            let mut sa: libc::sigaction = std::mem::zeroed();
+            sa.sa_sigaction = crash_handler as usize;
+            sa.sa_flags = libc::SA_ONSTACK;
+            libc::sigemptyset(&mut sa.sa_mask);
+            libc::sigaction(s, &sa, std::ptr::null_mut());
         }
     }
 }
